@@ -90,6 +90,13 @@ func BFS(c *Ctx, cfg SeqConfig) {
 							res.Outcome(cfg.Name + ":" + opKind(op) + ":" + oc.LastOutcome())
 						}
 					}
+					if v != nil && v.Ignore {
+						if counting {
+							res.Outcome(cfg.Name + ":" + opKind(op) + ":dead-end(not this property)")
+						}
+						inst.Close()
+						continue
+					}
 					if v != nil {
 						hist := append(append([]string{}, nd.hist...), op)
 						if v.Replay == nil {
@@ -141,7 +148,7 @@ func BFS(c *Ctx, cfg SeqConfig) {
 			}
 			frontier = next
 			if len(frontier) == 0 {
-				if depth < cfg.MaxDepth && c.Res.Exhaustive {
+				if depth < cfg.MaxDepth && c.Res.Exhaustive && (c.Of == 1 || depth <= cfg.SplitDepth) {
 					res.Note("%s seed %d: state space closed at depth %d (no new states) - complete, not depth-bounded", cfg.Name, si, depth)
 				}
 				break
